@@ -58,7 +58,11 @@ func fieldP() *fieldOps {
 	return &fieldOps{
 		name: "p", mod: c16P,
 		set: func(b []byte) (interface{}, error) {
+			snap := append([]byte{}, b...)
 			e, err := c16recvP().SetBytes(b)
+			if !bytes.Equal(b, snap) {
+				c16noteInputChanged(snap, b)
+			}
 			if err != nil {
 				return nil, err
 			}
@@ -99,7 +103,11 @@ func fieldN() *fieldOps {
 	return &fieldOps{
 		name: "n", mod: c16N,
 		set: func(b []byte) (interface{}, error) {
+			snap := append([]byte{}, b...)
 			e, err := c16recvN().SetBytes(b)
+			if !bytes.Equal(b, snap) {
+				c16noteInputChanged(snap, b)
+			}
 			if err != nil {
 				return nil, err
 			}
@@ -185,10 +193,55 @@ func fromLimbs(l [4]uint64) *big.Int {
 	return v
 }
 
+// every decoding of this check goes through fieldOps.set, which compares the caller's bytes before and after
+var (
+	c16inputChanged       int64
+	c16inputChangedBefore atomic.Value
+	c16inputChangedAfter  atomic.Value
+)
+
+func c16noteInputChanged(before, after []byte) {
+	if atomic.AddInt64(&c16inputChanged, 1) == 1 {
+		c16inputChangedBefore.Store(hk.Hex(before))
+		c16inputChangedAfter.Store(hk.Hex(after))
+	}
+}
+
 func TestVerifC16(t *testing.T) {
 	r := hk.NewReporter("C16", "fiat-fields")
 	defer r.Close()
 	rng := hk.NewRNG(hk.Seed(), "c16")
+	defer func() {
+		if n := atomic.LoadInt64(&c16inputChanged); n > 0 {
+			r.Violation("setbytes-changes-the-bytes-it-decodes", hk.D{"calls_affected": n, "input_before": c16inputChangedBefore.Load(), "input_after": c16inputChangedAfter.Load()})
+		}
+	}()
+	// the encoding lies in READ-ONLY memory (a constant, a file mapped into memory): decoding it must not write to it,
+	// not even temporarily
+	{
+		pool := hk.NewPool()
+		for i := 0; i < hk.N(120, 1200); i++ {
+			g := pool.Get(32, []int{hk.PlaceEnd, hk.PlaceStart, hk.PlaceMid}[i%3])
+			g.Writable()
+			v := new(big.Int).SetBytes(rng.Bytes(32))
+			f := []*fieldOps{fieldP(), fieldN()}[i%2]
+			if i%5 == 4 {
+				v.Sub(f.mod, big.NewInt(int64(1+i%3)))
+			}
+			v.Mod(v, f.mod)
+			v.FillBytes(g.B)
+			g.ReadOnly()
+			var e interface{}
+			var err error
+			p, pm, isFault, _ := hk.Try(func() { e, err = f.set(g.B) })
+			if p || err != nil || f.toBig(e).Cmp(v) != 0 {
+				r.Violation("setbytes-fails-on-an-encoding-in-read-only-memory:"+f.name, hk.D{"value": v.Text(16), "panic": pm, "write_fault": isFault, "err": fmt.Sprint(err)})
+			}
+			g.Writable()
+			pool.Put(g)
+			r.Eval("setbytes:read-only-input:" + f.name)
+		}
+	}
 
 	for _, f := range []*fieldOps{fieldP(), fieldN()} {
 		f := f
@@ -451,6 +504,18 @@ func TestVerifC16(t *testing.T) {
 					}
 				}
 			}
+			// the simplest internal states always take part: a single limb that is 1, 2 or all ones (the internal form of
+			// 2^-256, 2^-192 ... - NOT of the residues 1, 2^64 ...: a shortcut keyed on "the limbs look like one" is wrong there)
+			for pos := 0; pos < 4; pos++ {
+				for _, lv := range []uint64{1, 2, 1<<64 - 1} {
+					var l [4]uint64
+					l[pos] = lv
+					if fromLimbs(l).Cmp(m) < 0 {
+						raws = append(raws, l)
+					}
+				}
+			}
+			r2 := new(big.Int).Mod(new(big.Int).Mul(c16B256, c16B256), m)
 			limbs4 := func(v *big.Int) [4]uint64 {
 				ls := limbsOf(v)
 				return [4]uint64{ls[0], ls[1], ls[2], ls[3]}
@@ -480,6 +545,14 @@ func TestVerifC16(t *testing.T) {
 				}
 				if f.opp != nil {
 					chkRaw("opp", f.opp(ea), mod(new(big.Int).Neg(ai)), A, A)
+				}
+				// inversion: the value is A*2^-256, its inverse A^-1*2^256, whose internal form is A^-1*2^512 (for 0: 0)
+				if i%4 == 0 || i >= len(raws)-12 {
+					wantInv := new(big.Int)
+					if ai.Sign() != 0 {
+						wantInv = mod(new(big.Int).Mul(new(big.Int).ModInverse(ai, m), r2))
+					}
+					chkRaw("invert", f.invert(ea), wantInv, A, A)
 				}
 				n := 5
 				for k := 0; k < 4; k++ {
@@ -798,6 +871,12 @@ func TestVerifC16(t *testing.T) {
 				if (bits == 0) == (cond == 0) { // the combinations the library uses
 					if *out.GetRaw() != want {
 						r.Violation("multiselect-wrong", hk.D{"width": width, "bits": bits, "cond": cond})
+					}
+					// the way the point routines call it: the receiver IS the fallback (q.x.MultiSelect(tbl, w, bits, q.x, mask))
+					self := new(SM2Element).SetRaw(*fb.GetRaw())
+					self.MultiSelect(&tbl, width, byte(bits), self, cond)
+					if *self.GetRaw() != want {
+						r.Violation("multiselect-wrong:receiver-is-the-fallback", hk.D{"width": width, "bits": bits, "cond": cond})
 					}
 					r.Eval(fmt.Sprintf("multiselect:width%%4=%d,last=%v", width%4, bits == width))
 				}
